@@ -197,6 +197,38 @@ static void wl_c02t(Rng& r, long n) {
   }
 }
 
+// A vector-valued function whose components have DIFFERENT domains of definition: f = (sqrt(x0-a) | 1/(x0-a) | log(x0-a); e1; e2).
+// On a box where component 0 is undefined the evaluation of component 0 alone is (legitimately) empty; the components selected
+// afterwards on the same object (eval(i,box), eval_vector(box,comps)) must still enclose their exact values.  The lines carry the
+// DAG of the selected components alone, so that the exact evaluator is not stopped by the undefined one.
+static void partial_family(Rng& r) {
+  int n = r.range(1, 3);
+  Array<const ExprSymbol> x(n); for (int i = 0; i < n; i++) x.set_ref(i, ExprSymbol::new_(("x" + to_string(i)).c_str(), Dim::scalar()));
+  double a = r.range(-8, 8) / 4.0;
+  GenCfg cfg; cfg.allow_vec = false; cfg.allow_apply = false; cfg.allow_div = false; cfg.max_depth = r.range(1, 3);
+  ExprGen g(r, cfg); for (int i = 0; i < n; i++) g.syms.push_back(&x[i]);
+  const ExprNode* e0; switch (r.below(3)) { case 0: e0 = &sqrt(x[0] - a); break; case 1: e0 = &(1.0 / (sqr(x[0] - a) - sqr(x[0] - a))); break; default: e0 = &log(x[0] - a); }
+  int pos = r.below(3);   // position of the partially defined component
+  const ExprNode& e1 = g.gen(1, 1, cfg.max_depth); const ExprNode& e2 = g.gen(1, 1, cfg.max_depth);
+  Array<const ExprNode> comps(3); int oth[2]; { int k = 0; for (int i = 0; i < 3; i++) if (i == pos) comps.set_ref(i, *e0); else { comps.set_ref(i, k == 0 ? e1 : e2); oth[k++] = i; } }
+  Array<const ExprNode> two(2); two.set_ref(0, e1); two.set_ref(1, e2);
+  string dag2 = dump_expr(ExprVector::new_col(two), x);
+  Function f(x, ExprVector::new_col(comps));
+  for (int k = 0; k < 3; k++) {
+    IntervalVector box(n); for (int i = 0; i < n; i++) { double c = r.range(-16, 16) / 4.0; box[i] = Interval(c - r.range(0, 8) / 4.0, c + r.range(0, 8) / 4.0); }
+    box[0] = Interval(a - r.range(4, 16) / 4.0, a - r.range(0, 3) / 4.0);      // component `pos` is undefined (or has a pole) there
+    BitSet only = BitSet::empty(3); only.add(pos);
+    try { IntervalVector y0 = f.eval_vector(box, only); (void)y0; } catch (...) {}
+    if (r.coin()) { try { Interval y0 = f.eval(pos, box); (void)y0; } catch (...) {} }
+    Vector p = pick_point(r, box);
+    BitSet sel = BitSet::empty(3); sel.add(oth[0]); sel.add(oth[1]);
+    IntervalVector ys = f.eval_vector(box, sel); check_round_up("eval_vector(comps)");
+    EMIT("evalpt_comps %s %s 0.1 => %s\n", dag2.c_str(), ptok(p).c_str(), mtok(ys, false).c_str());
+    int w = r.below(2); Interval yi = f.eval(oth[w], box);
+    EMIT("evalpt_comp %s %s %d => %s\n", dag2.c_str(), ptok(p).c_str(), w, mtok(yi).c_str());
+  }
+}
+
 int main(int argc, char** argv) {
   string wl = argc > 1 ? argv[1] : "c02";
   uint64_t seed = argc > 2 ? strtoull(argv[2], 0, 10) : 1;
@@ -232,6 +264,7 @@ int main(int argc, char** argv) {
         if (pid < 0) forked = false;
       }
       do {
+      if (r.coin(12)) { try { partial_family(r); } catch (std::exception& e) { EMIT("evalerror partial %s => 0\n", e.what()); } }
       GenCfg cfg; cfg.max_depth = r.range(1, 4); cfg.thick_consts = false; cfg.allow_vec = r.coin(70); cfg.allow_apply = r.coin(50); cfg.allow_sqrt = r.coin(40);
       int rows = 1, cols = 1;
       if (cfg.allow_vec) switch (r.below(6)) { case 0: rows = r.range(2, 4); break; case 1: cols = r.range(2, 4); break; case 2: rows = r.range(2, 3); cols = r.range(2, 3); break; case 3: rows = r.range(2, 3); cols = r.range(3, 5); break; default: break; }
